@@ -1,14 +1,17 @@
-\* exhaustive: all reachable witness states x all requests
+\* exhaustive: all reachable witness states x all requests (every spelling x every fault)
 CONSTANTS
   Logs = {"L1", "L2"}
   OtherLogs = {"LX"}
   MaxSize = 4
   ForkAt = 2
   Proofs = {"correct", "othersizes", "otherfork", "truncated", "padded", "random", "empty"}
+  Aliases = {"bits", "nl", "nopad", "urlsafe", "space"}
+  CoverAliases = {"bits"}
+  CoverFaultProofs = {"correct"}
   Depth = 0
 INIT Init
 NEXT Next
 VIEW StateView
-INVARIANTS TypeOK OnlySigned
-PROPERTIES ForwardOnly RefusedNoChange Isolated CosignedIsHeldAct
+INVARIANTS TypeOK OnlySigned CosignedHeld
+PROPERTIES ForwardOnly RefusedNoChange Isolated CosignedIsHeldAct CosignedForward FaultedStoreRefused StorageErrorIsError OneHistoryPerLog
 CHECK_DEADLOCK FALSE
